@@ -765,8 +765,11 @@ impl<'a> Engine<'a> {
             let k = if self.rng.chance(3, 4) { *self.rng.pick(&keys) } else { self.gen_key() };
             self.dread(&k, why);
         }
-        if let Some(snaps) = self.image_sink.as_mut() {
-            snaps.snapshot(&self.dir, &self.committed, why);
+        if self.image_sink.is_some() {
+            let occ = self.db.as_ref().map(|d| d.hash_table_utilization().occupied);
+            if let Some(snaps) = self.image_sink.as_mut() {
+                snaps.snapshot(&self.dir, &self.committed, why, occ);
+            }
         }
     }
 
